@@ -163,9 +163,12 @@ theorem named_keys :
   decide
 
 /-- `smf/key.go` as parsed in this run declares exactly these constructors — same names, same order, same
-    literal arguments as the model's table, and the same literals register the names for `Key.String()`. -/
+    literal count / mode / flat arguments as the model's table (the first argument of `key(…)` is dropped by
+    `MetaKey` and therefore not compared) — and the `keyStrings[Key{…}] = "Name"` statements register exactly the
+    model's table for `Key.String()`. -/
 theorem key_declarations :
-    Facts.c15KeyDecls = namedKeys ∧ Facts.c15KeyStringDecls = namedKeys ∧
+    Facts.c15KeyDecls.map (fun e => (e.1, e.2.2)) = namedKeys.map (fun e => (e.1, e.2.2)) ∧
+    Facts.c15KeyStringDecls = namedKeys ∧
     Facts.c15KeyDecls.map (·.1) = Facts.c15NamedKeys.map (·.1) := by
   decide
 
